@@ -162,6 +162,15 @@ Fixpoint typed_fields (ks : list kind) (la : list D) : bool :=
 Lemma typed_rec ks la : typed (KRec ks) (DS la) = typed_fields ks la.
 Proof. reflexivity. Qed.
 
+Fixpoint shaped_fields (ks : list kind) (la : list D) : bool :=
+  match ks, la with
+  | [], [] => true
+  | k' :: ks', x :: la' => shaped k' x && shaped_fields ks' la'
+  | _, _ => false
+  end.
+Lemma shaped_rec ks la : shaped (KRec ks) (DS la) = shaped_fields ks la.
+Proof. reflexivity. Qed.
+
 Fixpoint lawful_list (ks : list kind) : bool :=
   match ks with [] => true | k :: r => lawful k && lawful_list r end.
 Lemma lawful_rec ks : lawful (KRec ks) = lawful_list ks.
@@ -224,7 +233,7 @@ Proof.
 Qed.
 
 (** * Every field either input carried is in the result *)
-Lemma le_refl : forall k a, typed k a = true -> le k a a = true.
+Lemma le_refl : forall k a, shaped k a = true -> le k a a = true.
 Proof.
   induction k using kind_ind'; intros a T.
   - cbn. apply D_eqb_refl.
@@ -233,11 +242,11 @@ Proof.
   - destruct a as [| |[|]| | | | |]; try discriminate; reflexivity.
   - destruct a as [| |[|]| | | | |]; try discriminate; reflexivity.
   - reflexivity.
-  - destruct a as [| | | | |la| |]; try discriminate. rewrite typed_rec in T. rewrite le_rec.
+  - destruct a as [| | | | |la| |]; try discriminate. rewrite shaped_rec in T. rewrite le_rec.
     revert la T. induction H as [|k ks Hk Hks IH]; intros [|x la] T; try discriminate; [reflexivity|].
-    cbn [typed_fields] in T. apply andb_true_iff in T. destruct T as [Tx Tl].
+    cbn [shaped_fields] in T. apply andb_true_iff in T. destruct T as [Tx Tl].
     cbn [le_fields]. rewrite (Hk x Tx), (IH la Tl). reflexivity.
-  - destruct a as [| | | | | |la|]; try discriminate. cbn [typed] in T. rewrite le_vec.
+  - destruct a as [| | | | | |la|]; try discriminate. cbn [shaped] in T. rewrite le_vec.
     induction la as [|x la IH]; [reflexivity|].
     cbn [forallb] in T. apply andb_true_iff in T. destruct T as [Tx Tl].
     cbn [le_prefix]. rewrite (IHk x Tx), (IH Tl). reflexivity.
@@ -248,7 +257,7 @@ Proof. induction 1 as [|x l Hx Hl IH]; [reflexivity|]. cbn. rewrite Hx, IH. refl
 
 (** Well-typedness of inputs is needed only where an adopted tail must be compared with itself. *)
 Theorem merge_keeps : forall k fa fb a b c,
-  typed k a = true -> typed k b = true ->
+  shaped k a = true -> shaped k b = true ->
   merge fa fb k a b = Some c -> le k a c = true /\ le k b c = true.
 Proof.
   induction k using kind_ind'; intros fa fb a b c Ta Tb M.
@@ -267,18 +276,18 @@ Proof.
   - cbn. auto.
   - destruct a as [| | | | |la| |], b as [| | | | |lb| |]; try discriminate.
     rewrite merge_rec in M. destruct (merge_fields fa fb ks la lb) as [lc|] eqn:E; [|discriminate].
-    cbn in M; inversion M; subst c; clear M. rewrite typed_rec in Ta, Tb. rewrite !le_rec.
+    cbn in M; inversion M; subst c; clear M. rewrite shaped_rec in Ta, Tb. rewrite !le_rec.
     revert la lb lc Ta Tb E. induction H as [|k ks Hk Hks IH]; intros [|x la] [|y lb] lc Ta Tb E; try discriminate.
     + inversion E; subst. auto.
-    + cbn [typed_fields] in Ta, Tb. apply andb_true_iff in Ta, Tb. destruct Ta as [Tx Tla], Tb as [Ty Tlb].
+    + cbn [shaped_fields] in Ta, Tb. apply andb_true_iff in Ta, Tb. destruct Ta as [Tx Tla], Tb as [Ty Tlb].
       cbn [merge_fields] in E. destruct (merge fa fb k x y) as [z|] eqn:Ez; [|discriminate].
       destruct (merge_fields fa fb ks la lb) as [r|] eqn:Er; [|discriminate]. inversion E; subst.
       destruct (Hk fa fb x y z Tx Ty Ez) as [A B]. destruct (IH la lb r Tla Tlb Er) as [A' B'].
       cbn [le_fields]. rewrite A, B, A', B'. auto.
   - destruct a as [| | | | | |la|], b as [| | | | | |lb|]; try discriminate.
     rewrite merge_vec in M. destruct (zipm (merge fa fb k) (fa f) (fb f) la lb) as [lc|] eqn:E; [|discriminate].
-    cbn in M; inversion M; subst c; clear M. cbn [typed] in Ta, Tb. rewrite !le_vec.
-    assert (R : forall l, forallb (typed k) l = true -> le_prefix k l l = true).
+    cbn in M; inversion M; subst c; clear M. cbn [shaped] in Ta, Tb. rewrite !le_vec.
+    assert (R : forall l, forallb (shaped k) l = true -> le_prefix k l l = true).
     { intros l Tl. apply le_prefix_refl. apply Forall_forall. intros x Hx.
       apply le_refl. rewrite forallb_forall in Tl. auto. }
     revert lb lc Ta Tb E. induction la as [|x la IH]; intros [|y lb] lc Ta Tb E.
@@ -337,4 +346,27 @@ Corollary merge_conflict k fa fb a b : compat fa fb k a b = false -> merge fa fb
 Proof.
   intros C. destruct (merge fa fb k a b) eqn:E; [|reflexivity].
   assert (merge fa fb k a b <> None) as N by congruence. apply merge_some_iff_compat in N. congruence.
+Qed.
+
+(** * The information order is transitive *)
+Theorem le_trans : forall k a b c, le k a b = true -> le k b c = true -> le k a c = true.
+Proof.
+  induction k using kind_ind'; intros a b c H1 H2.
+  - cbn in *. apply D_eqb_spec in H1, H2. subst. apply D_eqb_refl.
+  - destruct a as [| | |[u|]| | | |], b as [| | |[v|]| | | |], c as [| | |[w|]| | | |]; cbn in *; try discriminate; try reflexivity.
+    apply N.eqb_eq in H1, H2. subst. apply N.eqb_refl.
+  - destruct a as [| |u| | | | |], b as [| |v| | | | |], c as [| |w| | | | |]; cbn in *; try discriminate. destruct u, v, w; auto.
+  - destruct a as [| |u| | | | |], b as [| |v| | | | |], c as [| |w| | | | |]; cbn in *; try discriminate. destruct u, v, w; auto.
+  - destruct a as [| |u| | | | |], b as [| |v| | | | |], c as [| |w| | | | |]; cbn in *; try discriminate. destruct u, v, w; auto.
+  - reflexivity.
+  - destruct a as [| | | | |la| |], b as [| | | | |lb| |], c as [| | | | |lc| |]; try discriminate.
+    rewrite le_rec in *. revert la lb lc H1 H2.
+    induction H as [|k ks Hk Hks IH]; intros [|x la] [|y lb] [|w lc] H1 H2; try discriminate; [reflexivity|].
+    cbn [le_fields] in *. apply andb_true_iff in H1, H2. destruct H1 as [A1 A2], H2 as [B1 B2].
+    rewrite (Hk x y w A1 B1), (IH la lb lc A2 B2). reflexivity.
+  - destruct a as [| | | | | |la|], b as [| | | | | |lb|], c as [| | | | | |lc|]; try discriminate.
+    rewrite le_vec in *. revert lb lc H1 H2.
+    induction la as [|x la IH]; intros [|y lb] [|w lc] H1 H2; try discriminate; try reflexivity.
+    cbn [le_prefix] in *. apply andb_true_iff in H1, H2. destruct H1 as [A1 A2], H2 as [B1 B2].
+    rewrite (IHk x y w A1 B1), (IH lb lc A2 B2). reflexivity.
 Qed.
